@@ -114,6 +114,8 @@ def run(ctx):
         # of the loop it just spawned (on a spawner whose handle owns the task that cancels the actor before started())
         from props import c18
         c18.check_consume(ctx, fx, cfg, 3, "R03.5")
+        if cfg == "tokio":
+            check_registry_does_not_block_started(ctx, fx, cfg)
         # R03.6 (shared with C05) the graceful end "last strong handle dropped" can actually occur: the library's own timer
         # futures hold the actor weakly while they sleep (two timers that each hold an upgraded sender across their sleep keep
         # each other and the actor alive for ever: stopped() never runs)
@@ -206,6 +208,14 @@ def _returned_values(b):
                     else:
                         out.add(x.kind)
     return out
+
+
+def check_registry_does_not_block_started(ctx, fx, cfg, RULE="R03.7"):
+    """`started()` runs to completion: a registry operation does not wait for the actor it registers while it holds the registry
+    lock (an actor whose started() itself uses the registry — subscribes to a broker, looks a service up — would wait for that
+    lock for ever; shared with C08: the critical sections of register / replace contain no await but the acquisition)"""
+    from props import c08
+    core.shared_from(ctx, c08.check_cfg, fx, cfg, RULE, ("R08.2", "R08.3"), r"^(register|replace)@", 2, "registry rules for register / replace")
 
 
 def check_receivers(ctx, fx, co, b, inst, kind, RULE="R03.4"):
